@@ -560,7 +560,10 @@ impl NormalizedDurationRecord {
         } else {
             // a. Let startEpochNs be GetUTCEpochNanoseconds(start.[[Year]], start.[[Month]], start.[[Day]], start.[[Hour]], start.[[Minute]], start.[[Second]], start.[[Millisecond]], start.[[Microsecond]], start.[[Nanosecond]]).
             // b. Let endEpochNs be GetUTCEpochNanoseconds(end.[[Year]], end.[[Month]], end.[[Day]], end.[[Hour]], end.[[Minute]], end.[[Second]], end.[[Millisecond]], end.[[Microsecond]], end.[[Nanosecond]]).
-            (start.as_nanoseconds()?, end.as_nanoseconds()?)
+            (
+                crate::time::EpochNanoseconds(start.utc_epoch_nanoseconds()),
+                crate::time::EpochNanoseconds(end.utc_epoch_nanoseconds()),
+            )
         };
 
         // 9. If endEpochNs = startEpochNs, throw a RangeError exception.
@@ -933,7 +936,7 @@ impl NormalizedDurationRecord {
             } else {
                 // 1. Let endEpochNs be GetUTCEpochNanoseconds(end.[[Year]], end.[[Month]], end.[[Day]], end.[[Hour]],
                 // end.[[Minute]], end.[[Second]], end.[[Millisecond]], end.[[Microsecond]], end.[[Nanosecond]]).
-                end.as_nanoseconds()?
+                crate::time::EpochNanoseconds(end.utc_epoch_nanoseconds())
             };
             // viii. Let beyondEnd be nudgedEpochNs - endEpochNs.
             let beyond_end = nudge_epoch_ns - end_epoch_ns.0;
